@@ -579,4 +579,41 @@ def r14_11(ctx):
     ctx.floor(n, 1, "max()/min() over split pieces of a string")
 
 
-RULES = [r14_1, r14_2, r14_3, r14_4, r14_5, r14_6, r14_7, r14_8, r14_9, r14_10, r14_11]
+def r14_12(ctx):
+    ctx.rule("R14.12", "k columns have k - 1 gaps: in the column-count search of Columns.__rich_console__ the total width compared with the available width is sum(widths) + padding * (len(widths) - 1) (polynomial normal form, calls as atoms) - counting a gap per column makes a single item that fits look too wide, the count drops to 0 and the row arithmetic divides by it")
+    from .. import poly
+    from ..astutil import inline as _inl, single_defs as _sdf
+    f = ctx.repo.fn("columns:Columns.__rich_console__")
+    m = f.module
+    sites = []
+    for x in walk_local(f.node):
+        if isinstance(x, ast.Assign) and isinstance(x.targets[0], ast.Name) and any(isinstance(c, ast.Call) and norm(c.func) == "sum" for c in ast.walk(x.value)) and any(isinstance(c, ast.Call) and norm(c.func) == "len" for c in ast.walk(x.value)):
+            sites.append(x)
+    if len(sites) != 1:
+        raise AnalysisError(f"Columns.__rich_console__: expected one `total = sum(widths) + padding * (len(widths) - 1)`, found {len(sites)}")
+    x = sites[0]
+    atoms = {}
+
+    class _A(ast.NodeTransformer):
+        def visit_Call(self, node):
+            k = norm(node)
+            atoms.setdefault(k, f"c{len(atoms)}")
+            return ast.Name(id=atoms[k], ctx=ast.Load())
+    import copy
+    e = _A().visit(copy.deepcopy(x.value))
+    try:
+        got = poly.of_expr(e)
+    except (poly.Unsupported, poly.NotInteger) as ex:
+        raise AnalysisError(f"Columns.__rich_console__: `{short(x)}` is outside the polynomial fragment ({ex})")
+    sums = [k for k in atoms if k.startswith("sum(")]
+    lens = [k for k in atoms if k.startswith("len(")]
+    pads = sorted({a for mono in got for a in mono if isinstance(a, str)} - set(atoms.values()))
+    if len(sums) != 1 or len(lens) != 1 or len(pads) != 1:
+        raise AnalysisError(f"Columns.__rich_console__: cannot identify sum / len / padding in `{short(x)}`")
+    S, L, P = atoms[sums[0]], atoms[lens[0]], pads[0]
+    ref = poly.of_expr(ast.parse(f"{S} + {P} * ({L} - 1)", mode="eval").body)
+    ctx.check(got == ref, f.fq, short(x), f"{m.relpath}:{x.lineno}", "total width = widths + padding between adjacent columns",
+              f"`{short(x)}` is not sum + padding * (columns - 1) [{poly.show(got)}]: with one column it already charges a gap, so an item that exactly fits is judged too wide, column_count becomes 0 and iter_renderables(0) raises ZeroDivisionError (Columns(['a', 'b', 'c']) at width 1)")
+
+
+RULES = [r14_1, r14_2, r14_3, r14_4, r14_5, r14_6, r14_7, r14_8, r14_9, r14_10, r14_11, r14_12]
